@@ -573,7 +573,7 @@ impl Scenario for Parallel {
             }
             _ => {}
         }
-        w["sched"] = super::swarm_policy(&mut sw, 120);
+        w["sched"] = super::swarm_policy_edges(&mut sw, 120, 900);
         w
     }
     fn execute(&self, w: &Value, ctx: &ExecCtx) -> Report {
